@@ -154,7 +154,19 @@ func runHarnesses(specs []HarnessSpec, tier int, deadline time.Time, workers int
 	}
 	loadInfo := fmt.Sprintf("loaded %v from %s in %.1fs", dirs, repoDir, time.Since(t0).Seconds())
 	var results []*harnessResult
-	for _, spec := range specs {
+	deadline0 := deadline
+	for i, spec := range specs {
+		// the wall-clock budget of the property is shared: a harness may use up to twice its even share of what is
+		// left (the last one all of it), so that one expensive harness cannot starve the ones after it
+		if left := len(specs) - i; left > 1 {
+			if hd := time.Now().Add(2 * time.Until(deadline0) / time.Duration(left)); hd.Before(deadline0) {
+				deadline = hd
+			} else {
+				deadline = deadline0
+			}
+		} else {
+			deadline = deadline0
+		}
 		pkg := ld.pkgs[spec.Dir]
 		fn := pkg.Func("VerifHarness_" + spec.Name)
 		hr := &harnessResult{Spec: spec}
